@@ -92,16 +92,4 @@ def replay(scratch, rp):
     table, _ = vlib.export_jsontext(scratch)
     binary, job = vlib.generic_replay(scratch, rp, RUNNER)
     job["params"] = dict(table=table, max_len=0, random=0, parts="")
-    rc, so, se, to = vlib.run_single(binary, RUNNER, job, scratch, timeout=120)
-    out = vlib.WorkerOutcome()
-    vlib._parse_lines(so, out)
-    if rc != 0 or to:
-        print("replay: worker died or hung (rc=%s)\n%s" % (rc, se[-800:]))
-        print("VIOLATION property=%s replay=%s" % (PROP, "(this case)"))
-        return 1
-    if out.sigs:
-        for s, st in out.sigs.items():
-            print("replay reproduces: %s -- %s" % (s, (st["details"] or [""])[0]))
-        return 1
-    print("replay: no divergence")
-    return 0
+    return vlib.finish_replay(PROP, binary, RUNNER, job, scratch)
